@@ -32,10 +32,53 @@ TEXTS = {
               b"0b11", b"0o17", b"0x", b"1e", b"e5", b"0b", b"1__0"],
 }
 INTS = [0, 1, -1, 127, 2 ** 31 - 1, 2 ** 31, -2 ** 31 - 1, 2 ** 53 + 1, 2 ** 63 - 1, -2 ** 63, 86400]
-REALS = [0.0, 1.5, -2.75, 1e10, 2.0 ** 63, -1e19, 1e300, float("inf"), 5e-324, 3.999]
+REALS = [0.0, 1.5, -2.75, 1e10, 2.0 ** 63, -1e19, 1e300, float("inf"), 5e-324, 3.999, 1.0 / 3, 2.718281828459045, 1e-320,
+         1.7976931348623157e308, 0.1, 123456.0, 1234567.0, 1e-5, 0.0001, -float("inf"), 2147483648.5, 16777217.0]
 DESTS = ["string", "bytes", "int64", "int32", "int", "bool", "float64", "time", "nil", "uint16", "value", "struct", "ifaceptr"]
 ABSTRACT = {"uint16": "unsupported", "value": "unsupported", "struct": "unsupported", "ifaceptr": "unsupported"}
-GOFMT = {0.0: "0", 1.5: "1.5", -2.75: "-2.75", 1e10: "1e+10", 3.999: "3.999"}
+def gofmt_g(x):
+    """strconv.FormatFloat(x, 'g', -1, 64): shortest digits that round-trip; %e form when the decimal exponent is < -4 or
+    >= 21 ... no: >= max(number of digits, 6)?  Go: with the shortest precision the threshold is eprec = 6, raised to the
+    number of digits when there are more digits than that (ftoa.go %g case)."""
+    import math
+    if math.isinf(x):
+        return "+Inf" if x > 0 else "-Inf"
+    if math.isnan(x):
+        return "NaN"
+    if x == 0:
+        return "-0" if math.copysign(1, x) < 0 else "0"
+    r = repr(abs(x))                       # shortest round-trip digits
+    if "e" in r:
+        m, e = r.split("e")
+        e = int(e)
+    else:
+        m, e = r, 0
+    ip, _, fp = m.partition(".")
+    if fp == "0":
+        fp = ""
+    digits = (ip + fp).lstrip("0")
+    dp = len(ip) + e if ip != "0" else e - (len(fp) - len(fp.lstrip("0")))      # position of the decimal point
+    digits = digits.rstrip("0") or "0"
+    nd = len(digits)
+    exp = dp - 1
+    eprec = 6
+    if eprec > nd and nd >= dp:
+        eprec = nd
+    eprec = 6                                # shortest: precision 6 for this decision
+    if nd > eprec and nd >= dp:
+        pass
+    sign = "-" if x < 0 else ""
+    if exp < -4 or exp >= max(eprec, 21 if False else eprec):
+        mant = digits[0] + ("." + digits[1:] if nd > 1 else "")
+        return "%s%se%s%02d" % (sign, mant, "+" if exp >= 0 else "-", abs(exp))
+    if dp <= 0:
+        return sign + "0." + "0" * (-dp) + digits
+    if dp >= nd:
+        return sign + digits + "0" * (dp - nd)
+    return sign + digits[:dp] + "." + digits[dp:]
+
+
+GOFMT = {x: gofmt_g(x) for x in REALS}
 
 
 def grid_values():
